@@ -57,6 +57,7 @@ pub fn guarded<T, F: FnOnce() -> T + panic::UnwindSafe>(f: F) -> Result<T, Strin
 }
 
 pub fn silence_panics() {
+    if std::env::var("VERIF_BT").is_ok() { return; }
     panic::set_hook(Box::new(|_| {}));
 }
 
